@@ -211,11 +211,36 @@ def end_to_end(res, n):
                 spec += f"where len(str(<start>)) >= {rng.randint(0, 3)}\n"
             random.seed(res.seed + i)
             fan = Fandango(spec)
+            seeds = []
+            if i % 2 == 1:
+                # a seed corpus in which every tree satisfies all constraints: each seed is a solution the first time it is seen
+                k_seeds = rng.choice([2, 4, 6])
+                while len(seeds) < k_seeds:
+                    w = ""
+                    for _k in range(r):
+                        nn = rng.randint(1, 3)
+                        w += str(nn) + "".join(rng.choice("xy") for _ in range(nn))
+                    if len(w) >= 3 and w not in seeds:
+                        seeds.append(w)
+                psize = rng.choice([k_seeds, k_seeds, 3 * k_seeds])
+                kw = dict(desired_solutions=k_seeds + 3, max_generations=6, population_size=psize, initial_population=list(seeds))
+                res.bump("e2e_with_seed_corpus")
+            else:
+                kw = dict(desired_solutions=3, max_generations=15, population_size=12)
             try:
-                sols = common.guarded(lambda: fan.fuzz(desired_solutions=3, max_generations=15, population_size=12), 30)
+                sols = common.guarded(lambda: fan.fuzz(**kw), 30)
             except common.ImplTimeout:
                 res.bump("e2e_gave_up_30s")
                 continue
+            if seeds:
+                got = {str(x) for x in sols}
+                lost = [w for w in seeds if w not in got]
+                if lost:
+                    res.violation(f"end-to-end: seeds of the initial population that satisfy all {h}+{r} constraints were never reported as solutions",
+                                  {"kind": "e2e-seeds", "spec": spec, "seeds": seeds, "population_size": kw["population_size"], "lost": lost,
+                                   "reported": sorted(got)[:12]})
+                    break
+
             res.count(("e2e", spec), nontrivial=True)
             res.bump("e2e_specs")
             if i == 0:
